@@ -3,6 +3,7 @@ CONSTANTS
   Focus = {"my-list", "g.my-list"}
   NDcf = 1
   MaxArgv = 2
+  Repeat = TRUE
   Emit = TRUE
 INVARIANT DocumentedOrder
 INVARIANT StagesAgree
